@@ -28,7 +28,7 @@ MANIFEST = dict(
 )
 
 BUILDER_OPS = {'SetSetting', 'SetViews', 'AddCamera', 'CamSetActive', 'AddCordon', 'AddVisgroup', 'AddGroup', 'AddEnt',
-               'SetKey', 'DelKey', 'SetFixup', 'DelFixup', 'AddOut', 'SetEntAttr', 'EntJoin', 'AddPrism', 'AddSolid',
+               'SetKey', 'DelKey', 'SetFixup', 'DelFixup', 'AddOut', 'SetEntAttr', 'EntJoin', 'EntJoinSeq', 'SolidJoinSeq', 'AddPrism', 'AddSolid',
                'AddSide', 'SetSolidAttr', 'SetSideAttr', 'SetDispAttr', 'SetVert'}
 # feature a = TRUE needs feature b = TRUE
 IMPLIES = [('multiblend', 'disp'), ('vis_nested', 'visgroups'), ('ent_in_vis', 'visgroups'), ('solid_in_vis', 'visgroups'),
